@@ -124,6 +124,9 @@ func checkCase(c *Case, count bool) error {
 		}
 	}
 	for _, q := range c.Reqs {
+		if d := rt.IterReverseDiff(r.F, q.Host, q.Path); d != "" {
+			return fmt.Errorf("options=%+v routes=%v: %s", c.G, r.Routes, d)
+		}
 		pats := r.Patterns(q.Method)
 		if rt.ExcludedE(q.Path, pats) {
 			if count {
@@ -301,6 +304,19 @@ func genCase(t *rapid.T) *Case {
 		}
 		for _, h := range []string{hstem + "a.com", hstem + "b.org", hstem + "b.org:8080", hstem + "c.org", hstem[:10] + "b.org", hstem} {
 			c.Reqs = append(c.Reqs, rt.Req{Method: "GET", Host: h, Path: "/"}, rt.Req{Method: "GET", Host: h, Path: "/zz"})
+		}
+	}
+	if gen.Chance(t, 1, 20, "longhosts") {
+		// request hosts longer than any hostname that can be registered (255 bytes): a registered name of 251 bytes followed
+		// by a port or a dot, and a parameter label standing for a very long label part
+		lab := func(ch string) string { return strings.Repeat(ch, 62) }
+		long := lab("a") + "." + lab("b") + "." + lab("c") + "." + lab("d") // 251 bytes
+		for _, p := range []string{long + "/items", "{tenant}.example.org/items", "/items", "x{rest}.example.net/items"} {
+			c.Routes = append(c.Routes, rt.RouteSpec{Method: "GET", Pattern: p})
+		}
+		n := gen.Pick(t, []int{200, 243, 244, 245, 260, 1000}, "labellen")
+		for _, h := range []string{long, long + ":8080", long + ".", long + ".:443", long + "e", strings.Repeat("t", n) + ".example.org", strings.Repeat("t", n) + ".example.org:80", "x" + strings.Repeat("r", n) + ".example.net", strings.Repeat("t", n) + ".example.com"} {
+			c.Reqs = append(c.Reqs, rt.Req{Method: "GET", Host: h, Path: "/items"})
 		}
 	}
 	if gen.Chance(t, 1, 20, "widehosts") {
